@@ -40,11 +40,27 @@ class ProgGen:
         self.gmap = {n: t for n, t in globs}
         funcs = []
         self.helpers = []
+        self.rec = None
         if self.sw["calls"]:
             for i in range(r.randint(1, 2)):
-                h = self.function(f"h{i}", export=False)
+                h = self.pure_helper(f"h{i}") if r.random() < 0.4 else self.function(f"h{i}", export=False)
                 funcs.append(h)
                 self.helpers.append(h)
+            arrs = [(n, t) for n, t in globs if t[0] == "arr" and t[1] == "int"]
+            if self.sw.get("deep_rec") and arrs:
+                # bounded recursion that reads a global array element at the bottom: a defined
+                # failure (index out of range) can then strike deep inside nested activations
+                an, at = arrs[0]
+                self.rec = {"name": "d0", "array": an, "size": at[2]}
+                funcs.append({
+                    "name": "d0", "export": False, "params": [["n", "int"], ["k", "int"]], "ret": "int",
+                    "body": [
+                        ["if", ["bin", "<", ["var", "n"], ["lit", 1]], [["return", ["idx", an, ["var", "k"]]]], None],
+                        ["return", ["bin", "+", ["call", "d0", [["bin", "-", ["var", "n"], ["lit", 1]], ["var", "k"]]],
+                                    ["lit", 1]]],
+                    ],
+                    "fault": None, "ixsize": None,
+                })
         for i in range(r.randint(1, 4)):
             funcs.append(self.function(f"f{i}", export=True))
         return {"globals": globs, "functions": funcs}
@@ -165,6 +181,11 @@ class ProgGen:
                 cands.append((["idx2", n, ["lit", r.randrange(t[1])], self.idx_expr(env, t[1])], "int"))
             elif t[0] == "mat":
                 cands.append((["idx2", n, ["lit", r.randrange(4)], self.idx_expr(env, 4)], "float"))
+        if self.sw.get("aggregate_stores_only"):
+            # no stores to global *scalars* in this run: globals change only through element /
+            # field stores (state that is invalidated by whole-variable stores only stays stale)
+            keep = [c for c in cands if not (c[0][0] == "var" and c[0][1] in self.gmap)]
+            cands = keep or cands
         gl = [c for c in cands if c[0][1] in self.gmap]
         return r.choice(gl if gl and r.random() < 0.7 else cands)
 
@@ -181,7 +202,8 @@ class ProgGen:
                     e = ["lit", r.choice([0, 1, 2]) if et == "int" else r.choice([0.5, 2.5, 1.5])]
                 out.append(["assign", lv, opk, e])
             elif c < 0.52:
-                vs = [n_ for n_, t in env.items() if t[0] == "int" and n_ not in self.readonly]
+                vs = [n_ for n_, t in env.items() if t[0] == "int" and n_ not in self.readonly
+                      and not (self.sw.get("aggregate_stores_only") and n_ in self.gmap)]
                 if vs:
                     out.append(["incdec", r.choice(["++", "--"]), r.choice(vs), r.random() < 0.5])
             elif c < 0.58:
@@ -281,6 +303,26 @@ class ProgGen:
                 )
         return out
 
+    def pure_helper(self, name):
+        """A side-effect-free helper that only *reads* globals (scalars, array elements,
+        struct fields) and its parameters."""
+        r = self.rng
+        self.lc = 0
+        self.readonly = set()
+        self.ix_sizes = []
+        self.idxvars = []
+        self.allow_calls = False
+        self.made_call = False
+        params = [[f"a{i}", "int"] for i in range(r.randint(1, 2))]
+        env = {n: t for n, t in self.globs}
+        for n, t in params:
+            env[n] = [t]
+        e = self.int_expr(env)
+        for _ in range(r.randint(0, 2)):
+            e = ["bin", "+", e, self.int_expr(env, 1)]
+        return {"name": name, "export": False, "params": params, "ret": "int", "body": [["return", e]],
+                "fault": None, "ixsize": None, "pure": True}
+
     def function(self, name, export):
         r = self.rng
         self.lc = 0
@@ -322,6 +364,8 @@ class ProgGen:
         env0 = dict(env)
         body = self.stmts(env, 0, False, n=r.randint(2, 6))
         gints = [n for n, t in self.globs if t[0] == "int"]
+        if self.sw.get("aggregate_stores_only"):
+            gints = []
         if gints and r.random() < self.sw["carry_bias"]:
             # state-carrying locals: each feeds a global, so a local that is not
             # fresh in a later activation becomes visible in the history
@@ -375,6 +419,12 @@ class ProgGen:
                 ]
             pos = r.randint(0, len(body))
             body[pos:pos] = tpl
+        if export and self.rec and self.allow_calls and self.idxvars and gints and r.random() < 0.7:
+            g = ["var", r.choice(gints)]
+            depth = r.choice([3, 15, 25, 30, 30])
+            body.insert(r.randint(0, len(body)),
+                        ["assign", g, "=", ["bin", "+", g, ["call", "d0", [["lit", depth], ["var", self.idxvars[0]]]]]])
+            self.ix_sizes.append(self.rec["size"])
         fault = None
         if export and r.random() < self.sw["fault_sites"]:
             pos = r.randint(0, len(body))
@@ -417,6 +467,8 @@ def draw_swarm(rng):
         "p_get": rng.choice([0.0, 0.1]),
         "p_lifecycle": rng.choice([0.0, 0.05, 0.12]),
         "second_program": rng.random() < 0.3,
+        "deep_rec": rng.random() < 0.25,
+        "aggregate_stores_only": rng.random() < 0.2,
         # always False: the optimisation passes have defects of their own on the
         # unchanged tree (`++gi; p0 = gi;` crashes with -O) which are C02's matter
         "optimize": False,
@@ -426,6 +478,9 @@ def draw_swarm(rng):
 def gen_scenario(seed, tier="quick"):
     rng = core.sub_rng(seed, "c15.sched")
     sw = draw_swarm(core.sub_rng(seed, "c15.swarm"))
+    if sw["deep_rec"] and sw["calls"]:
+        # many defined failures deep inside nested activations, on few VMs, in one long history
+        sw.update(fault_sites=0.7, fault_rate=0.5, ops=80, max_vms=rng.choice([1, 1, 2]), p_lifecycle=0.0, p_set=0.05)
     prog = ProgGen(core.sub_rng(seed, "c15.prog"), sw).program()
     vrng = core.sub_rng(seed, "c15.values")
     exported = [f for f in prog["functions"] if f["export"]]
@@ -486,6 +541,9 @@ def gen_scenario(seed, tier="quick"):
             ops.append(["get", v, rng.choice(prog["globals"])[0]])
         else:
             f = rng.choice(exported)
+            deep = [x for x in exported if '"d0"' in core.canon(x["body"])]
+            if deep and rng.random() < 0.6:
+                f = rng.choice(deep)
             args = {}
             wantfault = bool(f["fault"]) and rng.random() < sw["fault_rate"]
             for n, t in f["params"]:
